@@ -1329,6 +1329,42 @@ mut("list-unlinked-not-finalized", "break", ["C18"], "the traversal unlinks a de
 """, "")], ["EBR-LIST"])
 mut("list-drop-no-finalize", "break", ["C18"], "List::drop does not finalize the remaining entries (mutation sweep M0382)",
     [ed(LF, "                C::finalize(curr.deref(), &guard);", "                let _ = (&curr, &guard);")], ["EBR-LIST"])
+mut("cw-weak-token-subtracted", "break", ["C03", "C04"], "increment_weak from zero SUBTRACTS the token unit (fetch_sub for fetch_add; mutation sweep M1055)",
+    [ed(U, "            self.state.fetch_add(WEAK_COUNT, Ordering::SeqCst);\n        }\n    }", "            self.state.fetch_sub(WEAK_COUNT, Ordering::SeqCst);\n        }\n    }")], ["CW-WEAK-PROTOCOL"])
+mut("cw-cascade-zero-test-removed", "break", ["C04", "C01"], "the cascade's `if next_cnt.strong() == 0` is `if false` (mutation sweep M1091): zero-count children are never destructed",
+    [ed(U, "            if next_cnt.strong() == 0 {", "            if false {")], ["CW-ZERO-DEFERS", "REC-IMMEDIATE"])
+mut("rec-edge-loop-skips-all", "break", ["C06"], "the edge loop skips every edge (`if true { continue }`; mutation sweep M1085): children are released by their Rc's drop, one grace period per level",
+    [ed(U, """            if next.is_null() {
+                continue;
+            }
+
+            let next_ptr = next.into_raw();""", """            if true {
+                continue;
+            }
+
+            let next_ptr = next.into_raw();""")], ["REC-IMMEDIATE"], allow_error=True)
+mut("queue-pop-retires-tail", "break", ["C17"], "pop never advances the tail before retiring the old head (`if head.ptr_eq(tail)` is `if false`; mutation sweep M1198): tail may point at a freed node",
+    [ed(Q, """                        if head.ptr_eq(tail) {
+                            let _ = self
+                                .tail
+                                .compare_exchange(tail, next, Release, Relaxed, guard);
+                        }
+                        guard.defer_destroy(head);
+                        Some(n.data.assume_init_read())
+                    })
+                    .map_err(|_| ())
+            },
+            None => Ok(None),""", """                        if false {
+                            let _ = self
+                                .tail
+                                .compare_exchange(tail, next, Release, Relaxed, guard);
+                        }
+                        guard.defer_destroy(head);
+                        Some(n.data.assume_init_read())
+                    })
+                    .map_err(|_| ())
+            },
+            None => Ok(None),""")], ["EBR-QUEUE"])
 mut("wrap-atomicepoch-cas-always-ok", "break", ["C13", "C14"], "AtomicEpoch::compare_exchange reports Ok on failure",
     [ed(EPF, "Err(data) => Err(Epoch { data }),", "Err(data) => Ok(Epoch { data }),")], ["WRAP-ATOMICS"])
 mut("wrap-defer-none-runs-now", "break", ["C01", "C02", "C13"], "Option<&Guard>::defer_with_inner runs f at once when no guard is given",
